@@ -104,25 +104,37 @@ def shard_main(pid, tier, seed, shard, nshards, out_path):
     if os.environ.get("VF_SHRINK") == "1":
         phases = [Phase.generate, Phase.shrink]
 
-    @hypothesis.seed(seed * 1000 + shard)
-    @settings(max_examples=n_examples, database=None, deadline=None, derandomize=False,
-              report_multiple_bugs=False, phases=phases,
-              suppress_health_check=[HealthCheck.too_slow, HealthCheck.data_too_large,
-                                     HealthCheck.large_base_example])
-    @given(mod.strategy())
-    def test(case):
-        if time.time() - t0 > time_limit:
-            state.skipped_time += 1
-            return
-        try:
-            run_case(mod, case, state)
-        except Violation as v:
-            state.failures.append((case, v))
-            raise
+    def make_test(strategy, n, seed_value, use_phases):
+        @hypothesis.seed(seed_value)
+        @settings(max_examples=n, database=None, deadline=None, derandomize=False,
+                  report_multiple_bugs=False, phases=use_phases,
+                  suppress_health_check=[HealthCheck.too_slow, HealthCheck.data_too_large,
+                                         HealthCheck.large_base_example])
+        @given(strategy)
+        def test(case):
+            if time.time() - t0 > time_limit:
+                state.skipped_time += 1
+                return
+            try:
+                run_case(mod, case, state)
+            except Violation as v:
+                state.failures.append((case, v))
+                raise
+        return test
+
+    passes = [(mod.strategy(), n_examples, seed * 1000 + shard, phases)]
+    # deployment-scale pass: a few cases per shard from the module's strategy_big() (sizes at which real
+    # recordings arrive: 10^5-10^7 samples, 10^3-10^4 windows, long headers); never shrunk (cost)
+    big_total = int(os.environ.get("VF_BIG", getattr(mod, "BIG", {}).get(tier, 0)))
+    if big_total and hasattr(mod, "strategy_big"):
+        n_big = big_total // nshards + (1 if shard < big_total % nshards else 0)
+        if n_big:
+            passes.append((mod.strategy_big(), n_big, seed * 1000 + shard + 500, [Phase.generate]))
 
     result = dict(shard=shard, status="ok")
     try:
-        test()
+        for strategy, n, seed_value, use_phases in passes:
+            make_test(strategy, n, seed_value, use_phases)()
     except Violation as v:
         case, v = state.failures[-1]
         result.update(status="violation", case=core.to_jsonable(case), message=v.message,
